@@ -295,6 +295,20 @@ pub fn run(ctx: &mut Ctx) {
                         present[t] = false;
                         removed_any = true;
                         expect_changed = Some(t);
+                        // Half of the time a late operation for the document arrives right behind the
+                        // removal, before anything was read (reads commit): it is refused, and the
+                        // refusal must not undo the removal it shares a write batch with (added
+                        // after seeded change agent-C16-8).
+                        if rng.chance(1, 2) {
+                            let r1 = store.register_useful_peer(ids[t], rng.fill32());
+                            let r2 = store.set_download_policy(&ids[t], DownloadPolicy::default());
+                            trace.push(format!("late operations right behind the removal of doc{t}: register peer -> {}, set policy -> {}", r1.is_ok(), r2.is_ok()));
+                            ctx.count("late_operations_in_the_batch_of_the_removal", 1);
+                            if r1.is_ok() || r2.is_ok() {
+                                ctx.violation(case, "operation-on-removed-document-accepted", json!({"doc": t, "register_peer": r1.is_ok(), "set_policy": r2.is_ok(), "trace": trace}));
+                                return;
+                            }
+                        }
                         // once removed nothing of it can be observed
                         match observe(&mut store, ids[t]) {
                             Ok(o) => {
